@@ -773,7 +773,7 @@ def relation_cases(ctx, mats, seeds_per=2, sub=None, outcomes=None, only=None):
         nr, nc = dense.shape
         square = nr == nc
         for e in table:
-            if ctx.quick and mi % e.quick_every:
+            if mi % e.quick_every:          # the slow variants run on every third matrix (both tiers)
                 continue
             seeds = _seed_sets(rng, e.kind, nr, nc)
             if len(seeds) > seeds_per:
@@ -991,7 +991,7 @@ def _matrices(ctx, quick, exhaustive_shapes=None, n_random=None):
             allb = rng.sample(allb, 5)
         for es in allb:
             mats.append((graphs.csr_from_edges(nr, es, m=nc).toarray(), 'csr'))
-    for t in range(n_random if n_random is not None else (12 if quick else 130)):
+    for t in range(n_random if n_random is not None else (12 if quick else 100)):
         nr = rng.randint(2, 6)
         nc = nr if rng.random() < 0.35 else rng.randint(2, 6)
         es = graphs.random_edges(rng, nr, rng.choice([0.3, 0.5, 0.8]), m=nc)
